@@ -93,7 +93,19 @@ def check(env, rep, tier):
                        sample={"rule": "C17.2", "fn": fn, "loop_head_bb": h, "cursor_advances": found})
             if kind == "to_cow":
                 # the borrowed form ends at the FIRST closing quote (what the character iterator does)
-                firsts, others = 0, []
+                firsts, others, starts = 0, [], []
+                raw_offs = []
+                a0v = args[0] if args else None
+                if isinstance(a0v, RefV):
+                    def _offs(v, d=0):
+                        if isinstance(v, SliceV):
+                            raw_offs.append(v.off)
+                        elif isinstance(v, OpaqueV) and v.get("iter") == "chars" and isinstance(v.get("start"), Aff):
+                            raw_offs.append(v.get("start"))
+                        elif isinstance(v, StructV) and d < 3:
+                            for f in v.fields:
+                                _offs(f, d + 1)
+                    _offs(I.read(st, a0v.place))
                 for s, rv in res:
                     if isinstance(rv, EnumV) and 0 in rv.variants and isinstance(rv.variants[0], StructV) and rv.variants[0].fields:
                         sl = rv.variants[0].fields[0]
@@ -103,8 +115,16 @@ def check(env, rep, tier):
                                 if inf and inf[0] == "found_ascii":
                                     if len(inf) > 4 and inf[4] == "find" and inf[3] == ord('"'):
                                         firsts += 1
+                                        # ... and starts right behind the opening quote: exactly one character is dropped
+                                        # (a second leading quote is the closing one: the value is empty)
+                                        sg_ = sl.off.single()
+                                        starts.append(any(s.entails_eq(sl.off, o_ + 1) or s.entails_eq(sl.off, o_) for o_ in raw_offs)
+                                                      or (sg_ is not None and sg_[1] == 1 and sg_[2] in (0, 1) and str(sg_[0]).startswith("pos")))
                                     else:
                                         others.append(inf[4] if len(inf) > 4 else "?")
+                rep.ob("C17.5", "to_cow|one-opening-quote", bool(starts) and all(starts),
+                       "to_cow does not take the text of a quoted value from right behind its first quote (more than one leading quote is stripped, "
+                       "or none): it differs from the character iterator for values like \"\"a", {"file": body["span"]["f"], "line": body["span"]["l"], "fn": path})
                 rep.ob("C17.5", "to_cow|first-closing-quote", firsts >= 1 and not others,
                        "to_cow does not cut a quoted value at the first closing quote (search used: %s): it differs from the character iterator when text with another quote follows" % (others or "none"),
                        {"file": body["span"]["f"], "line": body["span"]["l"], "fn": path},
